@@ -17,6 +17,7 @@ S["C08"] = dict(title="A connection carries whole packets only", technique=TECH,
     H("verifH_C08_requests", "L08.c request wrappers: whole packets, failure closes + connPending, success only when complete", T({"faults":2}), T({"faults":3}), ("complete","failed","not-submitted")),
     H("verifH_C05_concurrent", "bounded schedule exploration: two concurrent persisted publishes, <= k preemptions: only whole packets on the wire, tokens returned", T({"preempt":2,"wfaults":0}), T({"preempt":3,"wfaults":1}, time_sec=2400, maxpaths=3000000), ("both-written-in-order","end")),
     H("verifH_C08_concurrent", "bounded schedule exploration: Publish || PublishRetained || the read routine's acknowledgement on a connection whose Write is a scheduling point, one write fault: whole packets only, each at most once, nothing after an incomplete one, success only when complete", T({"preempt":0,"wfaults":1}), T({"preempt":1,"wfaults":0}, time_sec=2400, maxpaths=3000000), ("end",), poolreuse=True),
+    "CONNECT_LIGHT",
   ],
   assumptions=["net.Conn.Write contract: err != nil implies n < len(p); err == nil implies n == len(p)",
     "net.Buffers.WriteTo/consume are executed from SSA on the io.Writer path; *net.TCPConn's writev path is assumed to consume identically",
@@ -54,5 +55,6 @@ S["C15"] = dict(title="Stored records round-trip; single-byte damage always dete
 extra = os.path.join(os.path.dirname(__file__), "checks_extra.py")
 if os.path.exists(extra):
     exec(open(extra).read())
+S["C08"]["harnesses"] = [(_connect_light if h == "CONNECT_LIGHT" else h) for h in S["C08"]["harnesses"]]
 json.dump(S, open("/verif/harness/checks.json", "w"), indent=1)
 print("wrote", len(S), "properties")
